@@ -25,6 +25,14 @@ def run_witnesses(repo):
         fcntl.flock(lock, fcntl.LOCK_EX)
         tmp = tempfile.mkdtemp(prefix='rswit_', dir='/tmp')
         try:
+            # every analysed tree leaves its own build of the crate behind: start over when the directory has grown large
+            wt = os.path.join(runner.CACHE, 'witness-target')
+            try:
+                sz = int(subprocess.run(['du', '-sm', wt], capture_output=True, text=True).stdout.split()[0]) if os.path.isdir(wt) else 0
+            except Exception:
+                sz = 0
+            if sz > 3000:
+                shutil.rmtree(wt, ignore_errors=True)
             os.makedirs(os.path.join(tmp, 'src'))
             shutil.copy(src, os.path.join(tmp, 'src', 'lib.rs'))
             toml = open(os.path.join(verif, 'witness', 'Cargo.toml.in')).read().replace('@REPO@', repo)
